@@ -126,8 +126,8 @@ Sets WITH augment statements:
   - **`include_eq_inline_augments_norpc`** — `IncludeEqInlineAugments` PROVED for split sets without rpc / action nodes
     with piece (A) as the decidable hypothesis `Lemmas.IncludeAugSim.PendRel` (pending augment entries of every module
     equal up to `ren σ`, rows present alike) — besides `IsSplitOf`: `LoadedShape` / `AugPosDistinct` / `AugArgsPlain` of
-    `R'`, `NoIOStart` of both converted sets, `AllConverted R` (every module has a tree after conversion) and equal loop
-    fuel, all decidable and kernel-evaluated on `Ex4` WITHOUT running a loop.
+    `R'`, `NoIOStart` of both converted sets and `AllConverted R` (every module has a tree after conversion), all
+    decidable and kernel-evaluated on `Ex4` WITHOUT running a loop (equal loop fuel is derived: `loopFuel_split`).
   Still missing for `IncludeEqInlineAugments` in general: (A) `PendRel` as a theorem — the pending ENTRIES of the owner's
   row equal the unsplit module's up to `ren σ` (`context_independence` gives it per statement once the state
   at the call is known coherent; the module-level conversion proofs `IncludeMod.mod_conv` /
@@ -143,8 +143,8 @@ Sets WITH augment statements:
   with a row clause in `UInv` / `SInv`; `pendingOf` takes the FIRST row with the key, so "each module files one
   row" is part of it); note `REb σ` relates entries only where error free, `PendRel` asks equality: the entries of a
   clean conversion are error free only if their errors are collected into `forestErrs` — to be checked); the small
-  side conditions `AllConverted R` and `loopFuel R' = loopFuel R` (true of loaded sets; the second is a sum over the rows
-  once `PendRel` holds); (S) and (I, second half: `SameIO` of the two runs) for sets WITH rpc / action nodes — the
+  side conditions `AllConverted R` and `NoIOStart R` (the second should follow from `NoIOStart R'` through
+  `include_conversion`); (S) and (I, second half: `SameIO` of the two runs) for sets WITH rpc / action nodes — the
   simulation `augmentLoop_rel` uses that `Find` changes nothing on trees without rpc nodes (`walkParts_noIO`); with rpc
   nodes the lazily created inputs / outputs have to be carried through it.  (E) is closed; (I) is closed but for that.
   Also not done: `NoIOStart` from a condition on the STATEMENTS (no rpc / action / input / output statement in the set):
@@ -1651,31 +1651,30 @@ every module but the owner at the level of the conversion, `Lemmas.IncludeAugRow
 The other hypotheses are decidable too (all but `IsSplitOf`, which has executable conditions of its own):
 `LoadedShape` / `AugPosDistinct` / `AugArgsPlain` of the split registry (C07's input predicates), `NoIOStart` of both
 converted sets (no rpc / action node, no input / output entry), `AllConverted` (every module of the unsplit set has a
-tree), equal loop fuel.  Pieces (S) — the lockstep simulation of the two augment loops in the same module order on
+tree); that the two loops get the same fuel follows from `PendRel` (`Lemmas.IncludeAugSim.loopFuel_split`).  Pieces (S) — the lockstep simulation of the two augment loops in the same module order on
 forests related by `ren σ` / `SameTop` (`Lemmas.IncludeAugSim.augmentLoop_rel`, `loopsRelatedCore_of_start`) — and (I)
 are proved; with (E), (F), C07's order independence and the later stages the chain is complete. -/
 theorem include_eq_inline_augments_norpc (s : Split) (R R' : Registry) (opts : Opts) (plug plug' : Plug)
     (h : IsSplitOf s R R' plug plug') (hL : Lemmas.Fuel.LoadedShape R') (hpos : Lemmas.Bridge.AugPosDistinct R')
     (hplain : Lemmas.Bridge.AugArgsPlain R') (h0' : Lemmas.IncludeAugIO.NoIOStart R' opts plug')
     (h0 : Lemmas.IncludeAugIO.NoIOStart R opts plug) (hall : Lemmas.IncludeAugSim.AllConverted R opts plug)
-    (hP : Lemmas.IncludeAugSim.PendRel s R R' opts plug plug')
-    (hfuel : Lemmas.IncludeAugOrder.loopFuel R' opts plug' = Lemmas.IncludeAugOrder.loopFuel R opts plug) :
+    (hP : Lemmas.IncludeAugSim.PendRel s R R' opts plug plug') :
     IncludeEqInlineAugments s R R' opts plug plug' :=
   fun hdev hn hclean =>
     Lemmas.IncludeAugCompose.eq_inline_of_loopsRelated opts plug plug' h hL hpos hplain hdev hn hclean
       (Lemmas.IncludeAugIO.loopsRelated_of_noIO opts plug plug' h0'
-        (Lemmas.IncludeAugSim.loopsRelatedCore_norpc h opts hL h0' h0 hall hP hfuel hdev hn hclean))
+        (Lemmas.IncludeAugSim.loopsRelatedCore_norpc h opts hL h0' h0 hall hP
+          (Lemmas.IncludeAugSim.loopFuel_split h opts hP.1) hdev hn hclean))
 
 /-- All hypotheses of `include_eq_inline_augments_norpc` hold of `Ex4` (two modules augment, in a chain, a container
 that the split moves into a submodule; every hypothesis kernel-evaluated on the converted sets, no loop is run). -/
 example : IncludeEqInlineAugments Ex4.sp Ex4.R Ex4.R' {} Ex.plug Ex.plug :=
   include_eq_inline_augments_norpc Ex4.sp Ex4.R Ex4.R' {} Ex.plug Ex.plug Ex4.isSplit (by decide +kernel)
     (by decide +kernel) Ex4E.argsPlain (by decide +kernel) (by decide +kernel) (by decide +kernel) (by decide +kernel)
-    (by decide +kernel)
 
 
-/-- The conditions on the converted sets (`PendRel` — piece (A) —, `AllConverted`, equal loop fuel) also hold of the D67
-witness pair `Ex3` (kernel-evaluated). -/
+/-- The conditions on the converted sets (`PendRel` — piece (A) —, `AllConverted`; and equal loop fuel, which follows)
+also hold of the D67 witness pair `Ex3` (kernel-evaluated). -/
 example : Lemmas.IncludeAugSim.PendRel Ex3.sp Ex3.R Ex3.R' {} Ex.plug Ex.plug ∧
     Lemmas.IncludeAugSim.AllConverted Ex3.R {} Ex.plug ∧
     Lemmas.IncludeAugOrder.loopFuel Ex3.R' {} Ex.plug = Lemmas.IncludeAugOrder.loopFuel Ex3.R {} Ex.plug := by decide +kernel
